@@ -254,7 +254,7 @@ func visitInstr(fr *frame, instr ssa.Instruction) continuation {
 	case *ssa.Store:
 		addr := fr.get(instr.Addr).(*value)
 		if i.shared != nil {
-			i.shared.onWrite(fr, addr, instr)
+			i.shared.onWrite(fr, addr, instr, fr.get(instr.Val))
 		}
 		store(mustDeref(instr.Addr.Type()), addr, fr.get(instr.Val))
 
@@ -368,7 +368,7 @@ func visitInstr(fr *frame, instr ssa.Instruction) continuation {
 			rtPanic(i, "assignment to entry in nil map")
 		}
 		if i.shared != nil {
-			i.shared.onMapWrite(fr, m, instr)
+			i.shared.onMapWrite(fr, m, instr, fr.get(instr.Key), fr.get(instr.Value))
 		}
 		m.insert(i, fr.get(instr.Key), fr.get(instr.Value))
 
